@@ -164,7 +164,8 @@ pub struct RawSpec {
     pub dict: u32,
     pub size: Option<u64>,
     /// Some(n): the decoder is constructed for size Some(n) and then told the real
-    /// size through reset(Some(size)) before the decode (a reused decoder object)
+    /// size through reset(Some(size)) before the decode (a reused decoder object);
+    /// odd n: a first decompress call (empty input, fails at once) precedes the reset
     pub pre: Option<u64>,
 }
 
@@ -234,7 +235,13 @@ pub fn call_decoder<R: BufRead, W: Write>(
                     if raw.pre.is_some() { raw.pre } else { raw.size },
                 );
                 let mut d = LzmaDecoder::new(params, opts.memlimit).map_err(errstr)?;
-                if raw.pre.is_some() {
+                if let Some(pre) = raw.pre {
+                    if pre & 1 == 1 {
+                        // the object has also been used before: a decode of no input at
+                        // all (it fails at once), into a sink of its own
+                        let mut none: &[u8] = &[];
+                        let _ = d.decompress(&mut none, &mut std::io::sink());
+                    }
                     d.reset(Some(raw.size));
                 }
                 let res = d.decompress(r, w).map_err(errstr);
